@@ -257,6 +257,12 @@ pub fn enumerate(tier: Tier) -> (Vec<Tree>, String) {
         }
     }
     trees.extend(pl);
+    // RadersAlgorithm over EVERY prime up to a bound (inner transform planner-built): the primitive-root / index-map
+    // arithmetic is number-theoretic and misbehaves for sparse sets of primes
+    let rader_hi = tier.pick(8192, 40000);
+    for p in crate::lens::primes_between(160, rader_hi) {
+        trees.push(Tree::Rader(Box::new(Tree::Planned(PK::Scalar, p - 1))));
+    }
     // depth 2: children drawn from a reduced leaf set and all depth-1 trees over it
     let l2: Vec<Tree> = vec![Tree::Bf(1), Tree::Bf(2), Tree::Bf(3), Tree::Bf(4), Tree::Dft(5), Tree::Dft(6), Tree::Bf(7), Tree::Bf(8), Tree::Dft(9), Tree::R4(16)];
     let mut sub: Vec<Tree> = Vec::new();
@@ -283,11 +289,12 @@ pub fn enumerate(tier: Tier) -> (Vec<Tree>, String) {
     }
     trees.extend(d2);
     let desc = format!(
-        "leaves L = Dft(1..=32), Butterfly{{21 sizes}}, Radix4::new(2^0..2^5), Radix3::new(3^0..3^3); depth 0: L; depth 1: every ordered pair of L under MixedRadix / MixedRadixSmall / GoodThomasAlgorithm / GoodThomasAlgorithmSmall with product <= {m1}, every leaf under RadersAlgorithm, BluesteinsAlgorithm(len in {{1,2,3,largest prime,max,max-1}}), Radix4/Radix3::new_with_base(k<=2); planner-built scalar/SSE/AVX transforms of lengths {pl:?} as inner transforms of every unary constructor and paired with 6 small leaves; depth 2: every depth-1 tree (length <= 48) over the reduced leaf set {{B1,B2,B3,B4,Dft5,Dft6,B7,B8,Dft9,Radix4(16)}} under every unary constructor and paired (both orders) with every reduced leaf{t}, composite length <= {m2}. Trees outside a constructor's documented preconditions are not built.",
+        "leaves L = Dft(1..=32), Butterfly{{21 sizes}}, Radix4::new(2^0..2^5), Radix3::new(3^0..3^3); depth 0: L; depth 1: every ordered pair of L under MixedRadix / MixedRadixSmall / GoodThomasAlgorithm / GoodThomasAlgorithmSmall with product <= {m1}, every leaf under RadersAlgorithm, BluesteinsAlgorithm(len in {{1,2,3,largest prime,max,max-1}}), Radix4/Radix3::new_with_base(k<=2); planner-built scalar/SSE/AVX transforms of lengths {pl:?} as inner transforms of every unary constructor and paired with 6 small leaves; RadersAlgorithm(planner-built inner of length p-1) for EVERY prime 160 < p <= {rh} (light check: f64, impulses and exact sparse spikes); depth 2: every depth-1 tree (length <= 48) over the reduced leaf set {{B1,B2,B3,B4,Dft5,Dft6,B7,B8,Dft9,Radix4(16)}} under every unary constructor and paired (both orders) with every reduced leaf{t}, composite length <= {m2}. Trees outside a constructor's documented preconditions are not built.",
         m1 = maxlen1,
         pl = planned_lens,
         t = if tier == Tier::Thorough { " and with every other depth-1 tree" } else { "" },
-        m2 = maxlen2
+        m2 = maxlen2,
+        rh = rader_hi
     );
     (trees, desc)
 }
@@ -368,7 +375,7 @@ fn exact_part(w: &mut W, tree: &Tree, d: FftDirection, seed: u64) {
     }
 }
 
-fn float_part<T: Real>(w: &mut W, tree: &Tree, tree_idx: usize, d: FftDirection, rf: &Ref, seed: u64) {
+fn float_part<T: Real>(w: &mut W, tree: &Tree, tree_idx: usize, d: FftDirection, rf: &Ref, seed: u64, light: bool) {
     let n = tree.len();
     let tycode = if T::NAME == "f32" { 32 } else { 64 };
     let mut f = [-1i64; NFIELDS];
@@ -390,14 +397,29 @@ fn float_part<T: Real>(w: &mut W, tree: &Tree, tree_idx: usize, d: FftDirection,
     let b = bound::<T>(n) * 8.0;
     // references: reduced impulses + two dense vectors
     let mut cases: Vec<(String, Vec<C<T>>, Vec<(crate::dd::DD, crate::dd::DD)>)> = Vec::new();
-    for j in inputs::impulse_positions(n, n <= 16) {
+    let ipos = if light { vec![0, 1 % n, n / 2, n - 1] } else { inputs::impulse_positions(n, n <= 16) };
+    for j in ipos {
         cases.push((format!("impulse:re:{}", j), from_c64::<T>(&inputs::impulse(n, j, false)), rf.impulse_col(j, false, d)));
     }
-    for salt in [1u64, 2] {
-        let x = dense_vec::<T>(n, seed ^ salt);
-        let x64 = to_c64(&x);
-        let r = if T::NAME == "f32" { rf.dft_f64(&x64, d) } else { rf.dft_dd(&x64, d) };
-        cases.push((format!("dense:{}", salt), x, r));
+    if light {
+        // exact sparse spectrum instead of an O(n^2) reference
+        let sp = vec![(0usize, C::new(1.0f64, 0.0)), (n / 3, C::new(0.0, -2.0)), (n - 1, C::new(0.5, 0.5)), (n / 2, C::new(-1.5, 0.25)), (1 % n, C::new(0.25, 1.0))];
+        let mut x64 = vec![C::new(0.0f64, 0.0); n];
+        let mut spd: Vec<(usize, C<f64>)> = Vec::new();
+        for (j, a) in sp {
+            if x64[j] == C::new(0.0, 0.0) {
+                x64[j] = a;
+                spd.push((j, a));
+            }
+        }
+        cases.push(("spikes".into(), from_c64::<T>(&x64), rf.sparse_dft(&spd, d)));
+    } else {
+        for salt in [1u64, 2] {
+            let x = dense_vec::<T>(n, seed ^ salt);
+            let x64 = to_c64(&x);
+            let r = if T::NAME == "f32" { rf.dft_f64(&x64, d) } else { rf.dft_dd(&x64, d) };
+            cases.push((format!("dense:{}", salt), x, r));
+        }
     }
     for e in Entry::ALL {
         let ei = Entry::ALL.iter().position(|x| *x == e).unwrap() as i64;
@@ -451,6 +473,9 @@ fn float_part<T: Real>(w: &mut W, tree: &Tree, tree_idx: usize, d: FftDirection,
                     }
                 }
             }
+        }
+        if light {
+            continue;
         }
         // (2) the shape contract (C09) with guard pages (C03): reduced product
         let mut dls = vec![n, n + 1, 2 * n, 2 * n + 1];
@@ -555,14 +580,17 @@ pub fn worker_main(args: &[String]) -> i32 {
             f[10] = idx as i64;
             mem::set_current(&f);
             // planner leaves only exist for f32/f64 SIMD planners; in the field they fall back to the portable planner
-            exact_part(&mut w, tree, d, seed);
+            let light = n > 2100;
+            if !light {
+                exact_part(&mut w, tree, d, seed);
+            }
             if last_ref.as_ref().map(|r| r.n) != Some(n) {
                 last_ref = Some(Ref::new(n));
             }
             let rf = last_ref.as_ref().unwrap();
-            float_part::<f64>(&mut w, tree, idx, d, rf, seed);
-            if tree.has_planned() || idx % 3 == 0 || tier == Tier::Thorough {
-                float_part::<f32>(&mut w, tree, idx, d, rf, seed);
+            float_part::<f64>(&mut w, tree, idx, d, rf, seed, light);
+            if !light && (tree.has_planned() || idx % 3 == 0 || tier == Tier::Thorough) {
+                float_part::<f32>(&mut w, tree, idx, d, rf, seed, false);
             }
         }
     }
